@@ -25,13 +25,13 @@ func verifC17Check(prefix string, line string, user, addr, port string) {
 	}
 	verifrt.Reach(prefix + ".event")
 	e := env.enc.events[0]
-	verifrt.Assert(prefix+".failed", e.Outcome == auditevent_OutcomeFailed)
+	verifrt.Assert(prefix+".failed", e.Outcome == "failed")
 	verifrt.AssertEqStr(prefix+".addr", e.Source.Value, addr)
 	verifrt.AssertEqStr(prefix+".port", verifExtra(e.Source.Extra, "port"), port)
 	verifrt.Assert(prefix+".nologin", len(env.logins) == 0)
 }
 
-const auditevent_OutcomeFailed = "failed"
+
 
 func VerifC17InvalidUser() {
 	U, A := verifrt.Param("U", 24), verifrt.Param("A", 12)
